@@ -197,3 +197,44 @@ func Attach(f *idl.File, w *Way) {
 	w.S = &idl.Struct{Cat: "struct", Name: "Df" + strings.ReplaceAll(w.Name, "_", ""), Fields: []*idl.Field{fld(1, "f", w.T, idl.ReqDefault, w.V), fld(2, "g", w.T, idl.ReqOptional, w.V), fld(3, "tail", idl.T(idl.I32), idl.ReqDefault, nil)}}
 	f.Add(w.S)
 }
+
+
+// SamePkgFamily: an include whose Go package NAME equals the including file's
+// (api.v1.common included from api.v2.common) and which defines constants of
+// the same names as the including file; every way refers to the INCLUDED
+// constant with a qualified identifier.
+func SamePkgFamily(ns string) (main, inc *idl.File, ways []*Way) {
+	i32, str := idl.T(idl.I32), idl.T(idl.String)
+	inc = &idl.File{Path: "v1/common.thrift", Namespaces: []*idl.Namespace{{Lang: "go", Name: ns + ".v1.common"}}}
+	il := &idl.Const{Name: "LIMIT", Type: i32, Value: idl.VI(10)}
+	in := &idl.Const{Name: "NAME", Type: str, Value: idl.VS("one")}
+	ie := &idl.Enum{Name: "Mode", Values: []*idl.EnumValue{{Name: "A", Value: 1, Explicit: true}, {Name: "B", Value: 2, Explicit: true}}}
+	is := &idl.Struct{Cat: "struct", Name: "S1", Fields: []*idl.Field{fld(1, "v", i32, idl.ReqDefault, nil)}}
+	ik := &idl.Const{Name: "MODE", Type: idl.EnumT(ie), Value: idl.VE(ie, ie.Values[0])}
+	inc.Add(il)
+	inc.Add(in)
+	inc.Add(ie)
+	inc.Add(is)
+	inc.Add(ik)
+	main = &idl.File{Path: "v2/common.thrift", Includes: []*idl.Include{{Path: "../v1/common.thrift", File: inc}}, Namespaces: []*idl.Namespace{{Lang: "go", Name: ns + ".v2.common"}}}
+	ml := &idl.Const{Name: "LIMIT", Type: i32, Value: idl.VI(50)}
+	mn := &idl.Const{Name: "NAME", Type: str, Value: idl.VS("two")}
+	me := &idl.Enum{Name: "Mode", Values: []*idl.EnumValue{{Name: "A", Value: 7, Explicit: true}, {Name: "B", Value: 8, Explicit: true}}}
+	mk := &idl.Const{Name: "MODE", Type: idl.EnumT(me), Value: idl.VE(me, me.Values[1])}
+	main.Add(ml)
+	main.Add(mn)
+	main.Add(me)
+	main.Add(mk)
+	// keeps the import of the included package alive
+	main.Add(&idl.Struct{Cat: "struct", Name: "UsesInc", Fields: []*idl.Field{fld(1, "s", idl.StructT(is), idl.ReqDefault, nil)}})
+	add := func(n string, t *idl.Type, v *idl.Value) { ways = append(ways, &Way{Name: n, T: t, V: v}) }
+	add("samepkg_int", i32, idl.VC(il))
+	add("samepkg_string", str, idl.VC(in))
+	add("samepkg_local_int", i32, idl.VC(ml))
+	add("samepkg_map", idl.MapOf(str, i32), idl.VM([2]*idl.Value{idl.VS("inc"), idl.VC(il)}, [2]*idl.Value{idl.VS("loc"), idl.VC(ml)}))
+	add("samepkg_list", idl.ListOf(str), idl.VL(idl.VC(in), idl.VC(mn)))
+	add("samepkg_enum_const", idl.EnumT(ie), idl.VC(ik))
+	add("samepkg_enum_value", idl.EnumT(ie), idl.VE(ie, ie.Values[1]))
+	add("samepkg_local_enum_value", idl.EnumT(me), idl.VE(me, me.Values[0]))
+	return
+}
